@@ -677,7 +677,8 @@ def geometric(ctx):
                              'cos phi sin phi) with phi = arccos(f/f_c)',
                              construct='geometric scaling'))
     from ..match import find_seq
-    if find_seq(g, ['$x, $y = ($fd[0][0], $fd[0][1])',
+    if find_seq(g, ['$lit = $fd[0][2] > 0',
+                    '$x, $y = ($fd[0][0][$lit], $fd[0][1][$lit])',
                     '$m.append([self._compute_field_data($y, self.freq, $sf), '
                     'self._compute_field_data($x, self.freq, $sf)])']):
         res.ok('tangential from y, sagittal from x of the spot data')
@@ -802,4 +803,41 @@ def c03_trace_entry(ctx):
     from .C03 import trace_entry as _r
     return _r(ctx)
 
-RULES = [c03_trace_entry, c04_marginal, no_stale, psf_norm, dft_sampling, working_fno, def_assign, shapes, geometric]
+INTENSITY_CONSUMERS = ('GeometricMTF._generate_mtf_data',)
+
+
+def intensity_used(ctx):
+    """spot data are [x, y, intensity]; a ray stopped by an aperture keeps
+    finite coordinates and gets intensity 0.  A statistic over x, y that never
+    looks at the intensity counts blocked rays as if they had arrived."""
+    P = ctx.P
+    res = Result('INTENSITY-USED', 'statistics of the traced spot (centroid, '
+                 'RMS / geometric radius, line spread) weight or mask the rays '
+                 'with the recorded intensity')
+    for q in INTENSITY_CONSUMERS:
+        f = P.func(q)
+        res.saw(f)
+        uses_i = False
+        for x in ast.walk(f.node):
+            if isinstance(x, ast.Subscript) and const_of(x.slice) == 2:
+                uses_i = True
+            if isinstance(x, ast.Attribute) and x.attr in ('intensity', 'i'):
+                uses_i = True
+            if isinstance(x, ast.Name) and x.id in ('intensity', 'weights',
+                                                    'energy'):
+                uses_i = True
+        # statistics delegated to a sibling that does look at the intensity
+        if uses_i:
+            res.ok(f'{q}: uses the intensity record')
+        else:
+            res.fail(ctx.finding(
+                'INTENSITY-USED', f, f.node,
+                f'{q} averages / bins the x, y records of all launched rays '
+                f'and never reads their intensity: rays blocked by an '
+                f'aperture or obscuration (intensity 0, coordinates finite) '
+                f'count like transmitted ones',
+                construct=f'{q}: intensity ignored'))
+    return res
+
+
+RULES = [intensity_used, c03_trace_entry, c04_marginal, no_stale, psf_norm, dft_sampling, working_fno, def_assign, shapes, geometric]
